@@ -1,0 +1,30 @@
+//! Verification hook (only compiled with `--cfg aranya_core_verif`).
+//!
+//! A global function pointer called with `(label, address)` immediately before every
+//! shared-memory operation of the hand-rolled `ArcStr` in `repr.rs` (`arc.clone` before the
+//! `fetch_add`, `arc.drop` before the `fetch_sub`, `arc.free` before the deallocation) and
+//! after an allocation (`arc.alloc`).  A harness uses it to run real threads under a
+//! cooperative scheduler and to track allocations.  With no hook installed it is a no-op.
+
+#![allow(missing_docs)]
+
+use core::sync::atomic::{AtomicUsize, Ordering};
+
+static HOOK: AtomicUsize = AtomicUsize::new(0);
+
+/// Installs the hook.
+pub fn set_hook(f: fn(&'static str, usize)) {
+    HOOK.store(f as usize, Ordering::SeqCst);
+}
+
+/// An event / yield point.
+#[inline]
+pub fn event(label: &'static str, addr: usize) {
+    let p = HOOK.load(Ordering::SeqCst);
+    if p != 0 {
+        // SAFETY: only `set_hook` stores here, and it stores a `fn(&'static str, usize)`.
+        let f: fn(&'static str, usize) =
+            unsafe { core::mem::transmute::<usize, fn(&'static str, usize)>(p) };
+        f(label, addr);
+    }
+}
